@@ -290,21 +290,32 @@ type refRun struct {
 	filesAfter  []string
 }
 
-func (w *world) settle(async bool) {
-	if !async {
-		return
-	}
-	last := -1
-	for i := 0; i < 100; i++ {
+// quiesce waits until no store / database activity has been seen for a few polls (sessions that ended keep purging
+// asynchronously; such activity must not be counted as boundaries of the operation under test).
+func (w *world) quiesce() {
+	last, same := -1, 0
+	for i := 0; i < 400; i++ {
 		r, err := w.p.call(req{Op: "seen"})
 		if err != nil {
 			return
 		}
-		if r.Seen == last && i > 3 {
-			return
+		if r.Total == last {
+			same++
+			if same >= 4 {
+				return
+			}
+		} else {
+			same = 0
 		}
-		last = r.Seen
-		time.Sleep(20 * time.Millisecond)
+		last = r.Total
+		time.Sleep(3 * time.Millisecond)
+	}
+}
+
+func (w *world) settle(async bool) {
+	if async {
+		time.Sleep(60 * time.Millisecond)
+		w.quiesce()
 	}
 }
 
@@ -365,6 +376,7 @@ func runC07(ctx *common.Ctx) error {
 		return err
 	}
 	defer os.RemoveAll(dir)
+	defer os.Remove(dir + ".stderr")
 	w := &world{ctx: ctx, dir: dir, em: &emitter{}}
 	if err := w.restart(""); err != nil {
 		return err
@@ -378,6 +390,18 @@ func runC07(ctx *common.Ctx) error {
 		if err := w.runScenario(si, sc); err != nil {
 			return fmt.Errorf("scenario %s: %w", sc.name, err)
 		}
+	}
+	// the start-up clean-up is examined on a directory of its own (few objects => few boundaries)
+	w.p.kill()
+	dir2, err := os.MkdirTemp("", "verif-c07-*")
+	if err != nil {
+		return err
+	}
+	defer os.RemoveAll(dir2)
+	defer os.Remove(dir2 + ".stderr")
+	w.dir = dir2
+	if err := w.restart(""); err != nil {
+		return err
 	}
 	if err := w.startupScenario(); err != nil {
 		return fmt.Errorf("scenario startup: %w", err)
@@ -405,6 +429,7 @@ func (w *world) runScenario(si int, sc scenario) error {
 		return err
 	}
 	ref.filesBefore = storeFiles(w.dir)
+	w.quiesce()
 	w.p.call(req{Op: "trace_start"})
 	w.p.call(req{Op: "arm", K: 1 << 30, Mode: "fail"})
 	if err := sc.run(w, ref.pfx, d); err != nil {
@@ -461,6 +486,7 @@ func (w *world) runScenario(si int, sc scenario) error {
 			if err != nil {
 				return err
 			}
+			w.quiesce()
 			if _, err := w.p.call(req{Op: "arm", K: k, Mode: mode}); err != nil {
 				return err
 			}
